@@ -178,6 +178,7 @@ type World struct {
 	badAnswer    map[int]bool              // dealer broadcast an answer of wrong shape in rounds 1..3
 	firstPriv    map[[2]int]*Msg           // (dealer, receiver) -> first private message delivered in round 1 (Qual / Joint-Feldman)
 	shareFirst   map[int]*Msg              // plain VSS: receiver -> first private message from the dealer (delivery order)
+	unrelatedAt  int // event count at which an unrelated DKG instance is constructed (0 = never)
 	nonzeroSched bool
 	aborted      bool
 	seeds        [][]byte
